@@ -129,36 +129,41 @@ def sym_exact(v, dims, name, msgs):
                 return
 
 
-def check_relgap(sol, r, msgs):
-    rel = sol["relative gap"]
-    pc, dc, gap = sol["primal objective"], sol["dual objective"], r["gap"]
-    cands = []
-    # branch decided by the (verified) reported objectives; ambiguous within rounding -> both accepted
-    if pc < ROUND * r["pcost_scale"] + TINY:
-        if pc < 0:
-            cands.append(gap / -pc)
-    if not pc < -(ROUND * r["pcost_scale"] + TINY):
-        if dc > 0:
-            cands.append(gap / dc)
-        if not dc > ROUND * r["dcost_scale"] + TINY:
-            cands.append(None)
-    if rel is None:
-        if None not in cands:
-            msgs.append("'relative gap' is None but pcost=%r dcost=%r" % (pc, dc))
-        return None
-    if not isnum(rel):
+def relgap_ok(rel, gap, tgap, pc, tp, dc, td):
+    """Is `rel` a value the documented rule can produce?  rule: gap/-pc if pc < 0, else gap/dc if dc > 0,
+    else None -- where pc, dc, gap are only known up to the rounding tolerances tp, td, tgap."""
+    def inside(den, tden):
+        lo_den, hi_den = max(den - tden, 0.0), den + tden
+        if hi_den <= 0:
+            return False
+        lo = (gap - tgap) / hi_den if gap - tgap >= 0 else (gap - tgap) / max(lo_den, 1e-300)
+        hi = (gap + tgap) / lo_den if lo_den > 0 else float("inf")
+        if gap + tgap < 0:
+            hi = (gap + tgap) / hi_den
+        return lo - 1e-9 * abs(lo) <= rel <= hi + 1e-9 * abs(hi)
+    if pc < tp and rel is not None and inside(-pc, tp):
+        return True
+    if pc > -tp:
+        if dc > -td and rel is not None and inside(dc, td):
+            return True
+        if dc < td and rel is None:
+            return True
+    return False
+
+
+def check_relgap(sol, r, msgs, extra_none_ok=False):
+    rel = sol.get("relative gap")
+    if rel is not None and not isnum(rel):
         msgs.append("'relative gap' = %r" % (rel,))
         return None
-    ok = False
-    for cnd in cands:
-        if cnd is None:
-            continue
-        den = gap / cnd if cnd else 1.0
-        if abs(rel - cnd) <= (ROUND * r["gap_scale"] + TINY) / max(abs(den), 1e-300) + 1e-9 * abs(cnd):
-            ok = True
-    if not ok:
-        msgs.append("'relative gap' = %r, documented formula gives %r (gap=%r pcost=%r dcost=%r)" % (
-            rel, [c for c in cands], gap, pc, dc))
+    tgap = ROUND * r["gap_scale"] + TINY
+    tp = ROUND * r["pcost_scale"] + TINY
+    td = ROUND * (r["dcost_scale"] + r.get("dcost_extra", 0.0)) + TINY
+    if extra_none_ok and (rel is None or rel == 0.0):
+        return rel
+    if not relgap_ok(rel, r["gap"], tgap, r["pcost"], tp, r["dcost"], td):
+        msgs.append("'relative gap' = %r does not follow the documented rule (gap=%r pcost=%r dcost=%r)" % (
+            rel, r["gap"], r["pcost"], r["dcost"]))
     return rel
 
 
